@@ -17,7 +17,7 @@ RULE = ('directions: boundary grid (every 5 deg) and seeded-random points with h
         'both projection paths. distinct_nontrivial = distinct inputs (quantised to 1e-12) that reached a monitor.')
 ASSUMPTIONS = ['float32 accuracy bound of the statement taken as 1e-6 rad (measured worst values are in the evidence)',
                'V2 reference: light plane through the rotation axis direction tilted by 30 deg, n(a).d = 0']
-REQUIRED = ['mon.list_helpers_asked_again_after_the_list_changed', 'mon.v1_v2_v1', 'mon.v1_cart_v1', 'mon.v1_proj_v1', 'mon.v2_plane_reference', 'mon.pose_inverse',
+REQUIRED = ['mon.vector_answers_modified_by_the_caller', 'mon.list_helpers_asked_again_after_the_list_changed', 'mon.v1_v2_v1', 'mon.v1_cart_v1', 'mon.v1_proj_v1', 'mon.v2_plane_reference', 'mon.pose_inverse',
             'mon.pose_associativity', 'mon.pose_views', 'mon.solver_projection', 'mon.solver_zero_rotation', 'mon.ippe_axes', 'mon.pose_laws_after_history',
             'mon.solver_pairs_with_crazyflie_behind_the_base_station', 'mon.solver_non_canonical_rotation_vectors']
 
@@ -143,6 +143,22 @@ def run_grid(desc, ctx):
         okl = len(p2) == n and len(a2) == 2 * n and \
             all(abs(p2[i][0] - vs[i].projection[0]) < 1e-12 and abs(p2[i][1] - vs[i].projection[1]) < 1e-12 for i in range(n)) and \
             all(abs(a2[2 * i] - vs[i].lh_v1_horiz_angle) < 1e-12 and abs(a2[2 * i + 1] - vs[i].lh_v1_vert_angle) < 1e-12 for i in range(n))
+        # what a vector hands out belongs to the caller: changing it in place (sign flip for the OpenCV convention, scaling
+        # to pixels) leaves the vector's own conversions as they were
+        v0 = vs[0]
+        ref_p, ref_c = [float(x) for x in v0.projection], [float(x) for x in v0.cart]
+        q, c = v0.projection, v0.cart
+        try:
+            q *= -1.0
+            q += 320.0
+            c *= 0.0
+        except Exception:  # noqa (an immutable answer is fine too)
+            pass
+        ctx.count('mon.vector_answers_modified_by_the_caller')
+        if [float(x) for x in v0.projection] != ref_p or [float(x) for x in v0.cart] != ref_c:
+            ctx.violate('lhvec:conversion-changed-after-the-caller-modified-an-earlier-answer',
+                        {'projection_before': ref_p, 'projection_now': [float(x) for x in v0.projection], 'cart_before': ref_c,
+                         'cart_now': [float(x) for x in v0.cart]})
         if not okl:
             ctx.violate('lhvec:list-helpers-stale-after-the-list-changed', {'change': op, 'n': n, 'projection_pair_list': p2.tolist(),
                                                                             'per_element': [list(v.projection) for v in vs]})
